@@ -3,7 +3,7 @@ import verif as V
 
 PROP = "C13"
 SPEC = "Bng.Spec.C13"
-MON = ["fullsync-differs", "order", "diverged"]
+MON = ["fullsync-differs", "order", "diverged", "stale-attach"]
 COMPS = [
     V.Component("hasync", monitors=MON),
 ]
@@ -24,7 +24,8 @@ ASSUME = [
     "PushChange itself takes the sequence number (atomic add) and enqueues in two steps, so two concurrent callers could "
     "enqueue out of sequence order and in an order different from their store writes; handleGetSessions reads the store "
     "and then the sequence number. Neither is modelled: nothing in the repository calls PushChange concurrently (nothing "
-    "calls it at all outside the tests)",
+    "calls it at all outside the tests); harness/cmd/pushstress reproduces the resulting divergence on the real code "
+    "(recorded finding KF-ha-push-race, theorem KF_push_race_witness)",
     "one standby; SessionState is abstracted to (id, value) - the harness derives every field from the pair and checks "
     "all of them on the standby",
     "end-to-end runs use real time: a change is given 15 ms to be broadcast, a quiescent point waits up to 400 ms",
